@@ -752,6 +752,13 @@ def name_scope_cases():
     for i, a in enumerate(cmds):
         for j, b in enumerate(cmds):
             cases.append({"id": len(cases) + 1, "defs": defs, "cmds": [a, b], "sigma": [97, 98], "lo": 1, "hi": 3})
+    # a command's own capture or subroutine named like a global: inside that command the name means the command's own
+    defs2 = defs + [{"name": "s", "es": [L(b"a"), L(b"a")], "pred": []}, {"name": "x", "es": [L(b"b"), L(b"b")], "pred": []}]
+    own = [find([cap("x", L(b"a")), ref("x")]), find([sub("s", [L(b"b")]), ref("s")]), repl([cap("s", anyc), ref("s")], [N("s")]),
+           find([ref("s")]), find([ref("x"), ref("s")]), find([sub("x", [L(b"a")]), loop(1, -1, ref("x")), ref("s")])]
+    for a in own:
+        for b in own:
+            cases.append({"id": len(cases) + 1, "defs": defs2, "cmds": [a, b], "sigma": [97, 98], "lo": 1, "hi": 4})
     for (i, j, k) in ((0, 1, 5), (5, 6, 8), (3, 4, 3), (1, 9, 0), (6, 5, 6), (2, 0, 1)):
         cases.append({"id": len(cases) + 1, "defs": defs, "cmds": [cmds[i], cmds[j], cmds[k]], "sigma": [97, 98], "lo": 1, "hi": 3})
     return cases
@@ -914,6 +921,9 @@ def c09(ctx):
     ctx.replay("C09-captures-files", c2, FIELDS["C09"], mode="both")
     pc = ctx.gen_cases("C09P")
     ctx.replay("C09-process", pc, FIELDS["C09"])
+    # amount clauses with more and with fewer matches than they ask for (also none), find and replace, text and file
+    am = ctx.gen_cases("C04")
+    ctx.replay("C09-amounts", [c for c in am if c["id"] >= 300000 or c["id"] % (5 if quick else 2) == 0], FIELDS["C09"], mode="both")
     # inputs beyond the reader's and the memory writer's buffer sizes: returns normally, file = string
     pat = [ord(ch) for ch in "ab c\nxy  z9\n"]
     big = lambda n: [pat[i % len(pat)] for i in range(n)]
@@ -1167,6 +1177,8 @@ def c07(ctx):
     cases = ctx.gen_cases("C01")
     sel = [c for c in cases if c["id"] % (6 if quick else 2) == 0]
     ctx.replay("C07-file-vs-string", sel, ["filediff", "panic", "spans"], mode="both")
+    edge = ctx.gen_cases("C09")
+    ctx.replay("C07-file-vs-string-edge", edge, ["filediff", "panic"], mode="both")
 
 
 # ------------------------------------------------------------------- C08
